@@ -1,7 +1,7 @@
 (* C04 — MySQL: emitted DDL is executable in order and leaves the declared schema; every MODIFY keeps the
    column's current type, nullability and default.  Pinned statements only.
    Engine = the MySQL catalog MODEL of Model/Engine.v (modelled, not verified: no server in the sandbox). *)
-From VV.MYSQL Require Import Spec ModifyP WitnessP SimP.
+From VV.MYSQL Require Import Spec SpecKeys ModifyP WitnessP SimP SimKeysP.
 
 (* ------------------------------------------------------------------------------------------------------
    1. The history-dependent part, for ALL inputs: the MODIFY COLUMN emitted for a ModifyColumn{Type,
@@ -229,6 +229,110 @@ Check C04_composite_member_name_drift :
       option_map tb_indexes (find_tb "t" (catalog_of s')) = Some [mkMIndex "ix_t__a" ["a"] false false]
   | _, _ => False
   end.
+
+(* ------------------------------------------------------------------------------------------------------
+   3. The simulation Sim s c := c = catalog_of s, carried through build_plan_queries' loop and over histories
+      of any length, and the action kinds for which one step is proved (the hypotheses are the decidable
+      booleans of Model/Spec.v; their negations are the known-finding classes or violated assumptions).
+      Not yet proved per kind: CreateTable, AddConstraint of a primary / foreign key, RemoveConstraint of a key,
+      RenameTable, RenameColumn — for those the claim rests on the oracle run. *)
+Theorem C04_Sim_plan : forall acts s s',
+  (forall i a, nth_error acts i = Some a -> action_sim (schema_at s acts i) a) ->
+  apply_all s acts = Ok s' ->
+  exists L, gen_plan s acts = Ok L /\ run (catalog_of s) (List.concat L) = RunOk (catalog_of s').
+Proof. exact Sim_plan. Qed.
+Print Assumptions C04_Sim_plan.
+Check C04_Sim_plan : forall acts s s',
+  (forall i a, nth_error acts i = Some a -> action_sim (schema_at s acts i) a) ->
+  apply_all s acts = Ok s' ->
+  exists L, gen_plan s acts = Ok L /\ run (catalog_of s) (List.concat L) = RunOk (catalog_of s').
+
+Theorem C04_Sim_history : forall plans s s',
+  (forall k p sb, nth_error plans k = Some p ->
+                  apply_all s (flat_map p_actions (firstn k plans)) = Ok sb ->
+                  forall i a, nth_error (p_actions p) i = Some a -> action_sim (schema_at sb (p_actions p) i) a) ->
+  apply_all s (flat_map p_actions plans) = Ok s' ->
+  run_history (catalog_of s) s plans = Some (catalog_of s').
+Proof. exact Sim_history. Qed.
+Print Assumptions C04_Sim_history.
+Check C04_Sim_history : forall plans s s',
+  (forall k p sb, nth_error plans k = Some p ->
+                  apply_all s (flat_map p_actions (firstn k plans)) = Ok sb ->
+                  forall i a, nth_error (p_actions p) i = Some a -> action_sim (schema_at sb (p_actions p) i) a) ->
+  apply_all s (flat_map p_actions plans) = Ok s' ->
+  run_history (catalog_of s) s plans = Some (catalog_of s').
+
+Theorem sim_mysql_delete_table : forall s P t s' c,
+  Sim s c -> apply_action s (DeleteTable t) = Ok s' -> referenced_by_other s t = false ->
+  exists st, gen s P (DeleteTable t) = Ok st /\ run c st = RunOk (catalog_of s').
+Proof. exact sim_delete_table. Qed.
+Print Assumptions sim_mysql_delete_table.
+Check sim_mysql_delete_table : forall s P t s' c,
+  Sim s c -> apply_action s (DeleteTable t) = Ok s' -> referenced_by_other s t = false ->
+  exists st, gen s P (DeleteTable t) = Ok st /\ run c st = RunOk (catalog_of s').
+
+(* the Sim-lift of C04_modify_preserves: each MODIFY leaves exactly the believed column *)
+Theorem sim_mysql_modify_column : forall s a, modify_sim_hyp s a = true -> action_sim s a.
+Proof. exact sim_modify_column. Qed.
+Print Assumptions sim_mysql_modify_column.
+Check sim_mysql_modify_column : forall s a, modify_sim_hyp s a = true -> action_sim s a.
+
+Theorem sim_mysql_add_column : forall s a, add_column_sim_hyp s a = true -> action_sim s a.
+Proof. exact sim_add_column. Qed.
+Print Assumptions sim_mysql_add_column.
+Check sim_mysql_add_column : forall s a, add_column_sim_hyp s a = true -> action_sim s a.
+
+Theorem sim_mysql_delete_column : forall s a, delete_column_sim_hyp s a = true -> action_sim s a.
+Proof. exact sim_delete_column. Qed.
+Print Assumptions sim_mysql_delete_column.
+Check sim_mysql_delete_column : forall s a, delete_column_sim_hyp s a = true -> action_sim s a.
+
+Theorem sim_mysql_add_constraint_check : forall s a, add_check_sim_hyp s a = true -> action_sim s a.
+Proof. exact sim_add_check. Qed.
+Print Assumptions sim_mysql_add_constraint_check.
+Check sim_mysql_add_constraint_check : forall s a, add_check_sim_hyp s a = true -> action_sim s a.
+
+Theorem sim_mysql_remove_constraint_check : forall s a, remove_check_sim_hyp s a = true -> action_sim s a.
+Proof. exact sim_remove_check. Qed.
+Print Assumptions sim_mysql_remove_constraint_check.
+Check sim_mysql_remove_constraint_check : forall s a, remove_check_sim_hyp s a = true -> action_sim s a.
+
+(* CREATE [UNIQUE] INDEX, including the implicitly created foreign-key indexes the new key makes redundant *)
+Theorem sim_mysql_add_constraint_key : forall s a, add_key_full_hyp s a = true -> action_sim s a.
+Proof.
+  intros s a H. unfold add_key_full_hyp in H. apply Bool.andb_true_iff in H. destruct H as [H1 H2].
+  apply sim_add_key; assumption.
+Qed.
+Print Assumptions sim_mysql_add_constraint_key.
+Check sim_mysql_add_constraint_key : forall s a, add_key_full_hyp s a = true -> action_sim s a.
+
+Theorem sim_mysql_raw_sql : forall s sql, action_sim s (RawSql sql).
+Proof. exact sim_raw_sql. Qed.
+Print Assumptions sim_mysql_raw_sql.
+Check sim_mysql_raw_sql : forall s sql, action_sim s (RawSql sql).
+
+(* plans made of the proved kinds: executable in order, ending in the believed catalog *)
+Theorem C04_Sim_plan_proved_kinds : forall acts s s',
+  (forall i a, nth_error acts i = Some a -> sim_proved_for (schema_at s acts i) a = true) ->
+  apply_all s acts = Ok s' ->
+  exists L, gen_plan s acts = Ok L /\ run (catalog_of s) (List.concat L) = RunOk (catalog_of s').
+Proof. exact Sim_plan_proved. Qed.
+Print Assumptions C04_Sim_plan_proved_kinds.
+Check C04_Sim_plan_proved_kinds : forall acts s s',
+  (forall i a, nth_error acts i = Some a -> sim_proved_for (schema_at s acts i) a = true) ->
+  apply_all s acts = Ok s' ->
+  exists L, gen_plan s acts = Ok L /\ run (catalog_of s) (List.concat L) = RunOk (catalog_of s').
+
+Example C04_sim_hypotheses_satisfiable :
+  modify_sim_hyp ok_modify_schema (ModifyColumnType "t" "name" (TSimple Text) None) = true /\
+  add_column_sim_hyp ok_modify_schema (AddColumn "t" (pcol "body" (TSimple Text) false) (Some "''")) = true /\
+  delete_column_sim_hyp ok_modify_schema (DeleteColumn "t" "name") = true /\
+  sim_proved_for ok_modify_schema (DeleteTable "t") = true /\
+  add_check_sim_hyp ok_modify_schema (AddConstraint "t" (CCheck "ck" "id > 0")) = true /\
+  add_key_full_hyp ok_modify_schema (AddConstraint "t" (CUnique None ["name"])) = true /\
+  remove_check_sim_hyp [mkTable "t" None [pcol "id" (TSimple Integer) false] [CPrimaryKey false ["id"]; CCheck "ck" "id > 0"]]
+                       (RemoveConstraint "t" (CCheck "ck" "id > 0")) = true.
+Proof. vm_compute. repeat split; reflexivity. Qed.
 
 (* non-vacuity: the hypotheses are satisfiable and the full statement holds somewhere outside every class *)
 Example C04_holds_on_modify_interleaving :
